@@ -354,3 +354,12 @@ def _slices(V):
                  z3.BoolVal(items is not None and [x.fields.get("_conf_id") for x in items] == want and all(x.fields.get("_parent") is e for x in items)))
     bad = V.method(e, "__getitem__", ["x"], qual=None)
     V.ensure("post-exc/other-locators-rejected", z3.BoolVal(bad.raised(I, "ValueError")))
+
+
+# ------------------------------------------------------------------------------------------ "can be written and serialised"
+# the writers / codecs / pickle route have their contracts in C07, C01 and C06; the units that concern ensembles and conformer views
+# are part of this check (shared units)
+from contracts import C07_mol2 as C07, C01_library_codec as C01, C06_copies as C06
+P.include(C07.P, ["mol2 text of an ensemble"], why="an ensemble (conformer by conformer) can be written and read back under its name")
+P.include(C01.P, ["roundtrip[ens v2]"], why="an ensemble can be serialised and comes back with every conformer")
+P.include(C06.P, ["pickle / deepcopy of a ConformerEnsemble", "pickle / deepcopy of a Conformer"], why="ensembles and conformer views survive pickle / deepcopy")
